@@ -34,13 +34,76 @@ func refStartTLSOp() *ber.Packet {
 // frame of symbolic kind (0 delete, 1 add, 2 search) with message id i+1
 func vFrame(name string, id int64) *ber.Packet {
 	var op *ber.Packet
-	switch vLen(name+".kind", 1) {
+	switch vLen(name+".kind", 2) {
 	case 0:
 		op = refDeleteOp()
-	default:
+	case 1:
 		op = refApp(ApplicationAddRequest, refOctet("cn=u"), refSeq())
+	default:
+		// an extended operation other than StartTLS (any name up to 24 bytes):
+		// dispatched concurrently like every other request
+		ex := vStr(name + ".exname")
+		vAssume(len(ex) <= 24)
+		vAssume(ex != string(ExtendedOperationStartTLS))
+		op = refApp(ApplicationExtendedRequest, refCtxPrim(0, ex))
 	}
 	return vWire(refEnvelope(id, op, nil))
+}
+
+func init() { vReg("H_C10_manyblocked", H_C10_manyblocked) }
+
+// C10 with many earlier handlers still running when the Unbind is read
+// (concrete frames; N fixed per tier): the Unbind ends the connection and
+// nothing after it is served, however many requests are in flight.
+func H_C10_manyblocked() {
+	N := 17 + 16*vLen("moreBlocked", 1) // 17 or 33 handlers in flight
+	m := vMux()
+	g := vGate("release")
+	var mu sync.Mutex
+	started, finished := 0, 0
+	late := 0
+	hf := func(w *ResponseWriter, r *Request) {
+		mu.Lock()
+		started++
+		if r.ID > N {
+			late++
+		}
+		mu.Unlock()
+		vGateWait(g)
+		mu.Lock()
+		finished++
+		mu.Unlock()
+	}
+	vAssume(m.Delete(hf) == nil && m.DefaultRoute(hf) == nil)
+	nc := vNetConn("c")
+	for i := 0; i < N; i++ {
+		vConnFeed(nc, vWire(refEnvelope(int64(i+1), refDeleteOp(), nil)))
+	}
+	vConnFeed(nc, vWire(refEnvelope(int64(N+1), refUnbindOp(), nil)))
+	vConnFeed(nc, vWire(refEnvelope(int64(N+2), refDeleteOp(), nil)))
+	c, err := newConn(context.Background(), 1, nc, vLogger(), m)
+	vAssume(err == nil)
+	done := false
+	var serr error
+	go func() {
+		serr = c.serveRequests()
+		mu.Lock()
+		done = true
+		mu.Unlock()
+	}()
+	vQuiesce()
+	mu.Lock()
+	vAssertE(done && serr == nil, "the read loop ends at the Unbind although earlier handlers are still running")
+	vAssertE(started == N && finished == 0, "every request before the Unbind was dispatched; none has finished")
+	vAssertE(late == 0, "nothing after the Unbind reaches a handler")
+	mu.Unlock()
+	vAssertE(vConnFramesRead(nc) == N+1, "no frame is read after the Unbind")
+	vAssertE(vConnWrites(nc) == 0, "gldap sends no response to Unbind")
+	vGateOpen(g)
+	c.requestsWg.Wait()
+	vAssert(c.close() == nil, "close ok")
+	vAssert(vConnClosed(nc) == 1, "connection closed once")
+	vReach("manyblocked")
 }
 
 // C10: after an Unbind nothing is served.
@@ -250,7 +313,7 @@ func H_C06_blockedwriter() {
 		mu.Unlock()
 		_ = w.Write(r.NewResponse(WithResponseCode(ResultSuccess)))
 	}
-	vAssume(m.Delete(hf) == nil && m.Add(hf) == nil)
+	vAssume(m.Delete(hf) == nil && m.Add(hf) == nil && m.DefaultRoute(hf) == nil)
 	c1, c2 := vNetConn("c1"), vNetConn("c2")
 	vConnSet(c1, "writeBlock", true) // the first client never reads its responses
 	for i := 0; i < M; i++ {
@@ -300,7 +363,7 @@ func H_C05_writers() {
 			vAssert(err == nil, "write succeeds")
 		}
 	}
-	vAssume(m.Delete(hf) == nil && m.Add(hf) == nil)
+	vAssume(m.Delete(hf) == nil && m.Add(hf) == nil && m.DefaultRoute(hf) == nil)
 	first := 1
 	if upgraded {
 		vConnSet(nc, "tlsOK", true)
@@ -354,6 +417,37 @@ func H_C05_writers() {
 		vAssert(lastK[fmt.Sprint(first+i)] == 1, "both frames of every handler arrived")
 	}
 	vReach("writers")
+}
+
+func init() { vReg("H_C05_upgrade_inflight", H_C05_upgrade_inflight) }
+
+// C05 / C15: a client pipelines StartTLS behind a request whose handler is still
+// in flight (a protocol violation by the client, but gldap's own state must stay
+// race free): the in-flight handler's writes and the upgrade never touch the same
+// bufio.Writer without a common lock.
+func H_C05_upgrade_inflight() {
+	vSchedFork(1)
+	m := vMux()
+	nc := vNetConn("c")
+	hf := func(w *ResponseWriter, r *Request) {
+		_ = w.Write(r.NewResponse(WithResponseCode(ResultSuccess)))
+	}
+	vAssume(m.Delete(hf) == nil && m.DefaultRoute(hf) == nil)
+	vConnSet(nc, "tlsOK", true)
+	vAssume(m.ExtendedOperation(func(w *ResponseWriter, r *Request) {
+		_ = w.Write(r.NewExtendedResponse(WithResponseCode(ResultSuccess)))
+		_ = r.StartTLS(vTLSConfig())
+	}, ExtendedOperationStartTLS) == nil)
+	vConnFeed(nc, vWire(refEnvelope(1, refDeleteOp(), nil)))
+	vConnFeed(nc, vWire(refEnvelope(2, refStartTLSOp(), nil)))
+	vConnFeed(nc, vWire(refEnvelope(3, refDeleteOp(), nil)))
+	c, err := newConn(context.Background(), 1, nc, vLogger(), m)
+	vAssume(err == nil)
+	_ = c.serveRequests()
+	c.requestsWg.Wait()
+	vAssertE(vConnLayer(c.writer) == "writer(tls(raw(c)))", "the connection was upgraded")
+	vAssertE(vConnWrites(nc) == 3, "every response was written once")
+	vReach("upgrade inflight")
 }
 
 // C05(ii): inductive step of one Write: from an empty buffer and a free lock,
